@@ -297,8 +297,7 @@ def run(ctx, model_ok, n, IMPORTS):
                     for k_ in [k_ for k_ in last if k_.startswith(op.expr)]:
                         del last[k_]
                 last[op.expr] = op.stmt
-                pre_st, _ = journal(ch, addr)
-                ch.reset_transient()
+                pre_st, pre_tr = journal(ch, addr)   # transient storage is kept across calls (one long "transaction")
                 r = ch.call(addr, method_id(f"op{oi}()"))
                 post_st, post_tr = journal(ch, addr)
                 detail = dict(base_detail, call=f"op{oi}()", statement=op.stmt, variable=op.var.name, reported={"loc": loc, "slot": vslot, "n_slots": vn})
@@ -310,7 +309,7 @@ def run(ctx, model_ok, n, IMPORTS):
                     old = pre_st[s][1] if s in pre_st else orig
                     if present != old:
                         ch_st.add(s)
-                ch_tr = {s for s, v in post_tr.items() if v != 0}
+                ch_tr = {s for s in set(post_tr) | set(pre_tr) if post_tr.get(s, 0) != pre_tr.get(s, 0)}
                 changed, other = (ch_st, ch_tr) if loc == "storage" else (ch_tr, ch_st)
                 n_ops += 1
                 stats[op.kind] += 1
